@@ -38,12 +38,19 @@ Accepted: straight-line code of assignments / augmented assignments / the masked
 for tests made of `self.ovo`, `return_grad`, `not`, `and`, `or`, `True`, `False` (all folded), doc-strings, `pass`; calls
 `f(…)` of a top-level function `f` of the same file (bound exactly once in the module, undecorated, plain positional
 parameters) whose body is itself in this fragment and reads nothing but its parameters: the body is INLINED in a scope of its
-own (see `Unit.inline`); expressions: `+ - * /` (arrays with
+own (see `Unit.inline`); `self.m(…)` of a private helper METHOD `m` of the translated class itself (bound exactly once in
+its class body, in no other class of the file, never stored as an attribute; an ordinary method or a `@staticmethod`): inlined
+the same way (see `Unit.method_helper`); an ordinary method may read `self.epsilon` / `self.ovo`, a static one has no `self`;
+the folded Booleans (`return_grad`, `self.ovo`, …) may be handed to a helper as arguments and are folded there too; a helper
+may return a tuple, which the caller may return as it is or unpack (`a, b = self.m(…)`); expressions: `+ - * /` (arrays with
 broadcasting, scalars), unary `-`/`+`, `@`, `np.dot`, `np.matmul`, `.dot`, `.T`, `.transpose()`, `np.transpose(x)`, `** 2`,
 `&`, comparisons `array > s`, `array < s`, `s < array`, `s > array`, `array == s`; `np.clip(x, lo, hi)` (also `a_min=`,
 `a_max=`), `np.log`, `np.sqrt`, `np.abs`/`np.absolute`, `np.sign`, `np.square`, `np.maximum(x, 0)`, `np.sum`/`np.mean`/
 `.sum`/`.mean` with `axis` in {None, 0, 1, -1, -2} and literal `keepdims`, `np.eye(n)`, `len(x)`, `x.shape[i]`, `np.diag`,
-`.reshape((1, -1))`, `.reshape((-1, 1))` (of 1-D arrays), `.squeeze()`, `.copy()`, and the 3-D operations listed above.
+`.reshape((1, -1))`, `.reshape((-1, 1))` (of 1-D arrays), `.squeeze()`, `.copy()`, the 3-D operations listed above, and
+their other spellings: `x[np.newaxis, :]`, `x[:, np.newaxis]`, `x[:, np.newaxis, :]`, `x[:, :, np.newaxis]`, … (ONE `np.newaxis` /
+`None` among full slices `:` only = `np.expand_dims`), `np.swapaxes(x, 1, 2)` of a 3-D array (= `np.transpose(x, axes=[0, 2, 1])`),
+`np.swapaxes(x, 0, 1)` of a 2-D one (= `.T`).
 Integer dtypes: `y_pred`, `affinity` (and the weight matrices of prox.py) are float arrays.  Every value carries `mi` = "its
 dtype / Python type MAY be an integer one" (integer literals, Boolean arrays in arithmetic, `np.full(shape, <int>)`,
 `np.where(m, <int>, <int>)`, `np.arange(k)`, and whatever NumPy's promotion derives from them; unknown Python scalars such
@@ -79,8 +86,8 @@ def unit_name(short, ovo, grad):
 
 class Val:
     """a translated value.  kind: 'arr' (float array, `nd` dimensions), 'mask' (Boolean array), 'scal' (α), 'nat' (Nat),
-    'tuple' (term = list of Val).  `fresh`: a newly allocated array nobody else refers to; `roots`: the variables whose
-    memory the value may share (views)."""
+    'tuple' (term = list of Val), 'bool' (a folded Python Boolean, `lit`: only as argument / parameter of an inlined helper).
+    `fresh`: a newly allocated array nobody else refers to; `roots`: the variables whose memory the value may share (views)."""
 
     def __init__(self, kind, term, nd=None, fresh=False, roots=(), lit=None, mi=None):
         self.kind, self.term, self.nd, self.fresh, self.roots = kind, term, nd, fresh, frozenset(roots)
@@ -125,12 +132,17 @@ class Returned(Exception):
 class Unit:
     ovo = None                            # the folded configuration flags (None: the unit has none, see prox.py)
     grad = None
+    methods = {}                          # helper methods of the class (none for the module-level units of prox.py)
+    tuples_ok = False                     # inlined helpers may return tuples (prox.py has pairs of its own)
 
     def __init__(self, rel, tree, numpy_names, short, cls, ovo, grad):
         self.rel, self.short, self.cls, self.ovo, self.grad = rel, short, cls, ovo, grad
         self.numpy = numpy_names
         self.helpers = module_helpers(tree)
-        self.scopes = []                  # [name of the helper function being inlined, its returned Val]
+        self.tuples_ok = True
+        self.methods = class_helpers(tree, cls)   # private helper methods of the class that `self.m(…)` certainly means
+        # [name of the helper function being inlined (`self.<m>` for a method), its returned Val, has `self`, its FunctionDef]
+        self.scopes = []
         self.mi_stack = []
         self.lean_name = unit_name(short, ovo, grad)
         self.where = f"{cls}.evaluate[ovo={ovo}, return_grad={grad}]"
@@ -209,17 +221,27 @@ class Unit:
     def zero(self, e):
         return isinstance(e, ast.Constant) and type(e.value) in (int, float) and e.value == 0
 
+    def has_self(self):
+        """`self` is the receiver of `evaluate`: at the top level and inside an inlined ORDINARY method of the class"""
+        return not self.scopes or bool(self.scopes[-1][2])
+
+    def newaxis(self, e):
+        return (isinstance(e, ast.Constant) and e.value is None) or \
+            (isinstance(e, ast.Attribute) and e.attr == "newaxis" and isinstance(e.value, ast.Name)
+             and e.value.id in self.numpy and e.value.id not in self.env)
+
     def fold_test(self, t):
         """the value of a test made of the two folded configuration flags (`self.ovo`, `return_grad`), `not`, `and`, `or`
         and the literals True / False; None for anything else.  Both flags are Booleans (`ovo` is validated as one, the unit
         fixes `return_grad`), so truthiness is the value itself."""
-        if self.scopes:
-            return None                   # inside an inlined helper function neither `self` nor `return_grad` exist
+        if isinstance(t, ast.Name) and t.id in self.env:
+            v = self.env[t.id]            # a folded Boolean handed to an inlined helper as an argument
+            return v.lit if v.kind == "bool" else None
         if isinstance(t, ast.Attribute) and isinstance(t.value, ast.Name) and t.value.id == "self" \
-                and t.attr == FLAG_ATTR and "self" not in self.env and self.ovo is not None:
-            return self.ovo
-        if isinstance(t, ast.Name) and t.id == ARGS[2] and t.id not in self.env and self.grad is not None:
-            return self.grad
+                and t.attr == FLAG_ATTR and "self" not in self.env and self.ovo is not None and self.has_self():
+            return self.ovo               # (inside an inlined function / static method there is no `self`)
+        if isinstance(t, ast.Name) and t.id == ARGS[2] and t.id not in self.env and self.grad is not None and not self.scopes:
+            return self.grad              # (`return_grad` is a parameter of `evaluate` only)
         if isinstance(t, ast.Constant) and type(t.value) is bool:
             return t.value
         if isinstance(t, ast.UnaryOp) and isinstance(t.op, ast.Not):
@@ -310,7 +332,7 @@ class Unit:
                 return v
             self.fail(f"unknown name {e.id}", e)
         if isinstance(e, ast.Attribute):
-            if isinstance(e.value, ast.Name) and e.value.id == "self" and "self" not in self.env and not self.scopes:
+            if isinstance(e.value, ast.Name) and e.value.id == "self" and "self" not in self.env and self.has_self():
                 if e.attr in SCALAR_ATTRS:
                     return Val("scal", e.attr)
                 self.fail(f"read of self.{e.attr} inside an expression", e)
@@ -367,6 +389,17 @@ class Unit:
                 if a.kind not in ("arr", "mask") or i is None:
                     self.fail("unsupported use of .shape", e)
                 return Val("nat", self.dim(a, i, e))
+            # x[:, np.newaxis], x[np.newaxis, :], x[:, np.newaxis, :], x[:, :, np.newaxis], …: ONE new axis among full slices
+            # (missing trailing slices are implied) — `np.expand_dims(x, <number of slices before it>)`, a view
+            idx = list(e.slice.elts) if isinstance(e.slice, ast.Tuple) else [e.slice]
+            if idx and all(_full_slice(x) or self.newaxis(x) for x in idx) and sum(1 for x in idx if self.newaxis(x)) == 1:
+                a = self.arr(self.expr(e.value), e, "np.newaxis subscript", (1, 2))
+                if len(idx) - 1 > a.nd:
+                    self.fail(f"too many indices for a {a.nd}-d array", e)
+                pos = next(k for k, x in enumerate(idx) if self.newaxis(x))
+                if a.nd == 1:
+                    return Val("arr", f"(Arr.{['reshapeRow', 'reshapeCol'][pos]} {a.term})", 2, False, a.roots)
+                return Val("arr", f"(Arr3.{['expandFirst', 'expandMid', 'expandLast'][pos]} {a.term})", 3, False, a.roots)
             self.fail("unsupported subscript", e)
         if isinstance(e, ast.IfExp):
             cond = self.fold_test(e.test)
@@ -470,26 +503,48 @@ class Unit:
             return Val("arr", f"(Arr3.squeeze2 {a.term})", 2, False, a.roots)
         self.fail(f"squeeze(axis={ax}) of a {a.nd}-d array", call)
 
+    def swapaxes(self, a, i, j, call):
+        """`np.swapaxes(x, i, j)` (a view): the last two axes of a 3-D array, the two axes of a 2-D one"""
+        self.arr(a, call, "swapaxes", (2, 3))
+        i, j = self.literal_int(i), self.literal_int(j)
+        if i is None or j is None or not (-a.nd <= i < a.nd and -a.nd <= j < a.nd):
+            self.fail("swapaxes: the axes must be literal integers within the number of dimensions", call)
+        if a.nd == 3 and {i % 3, j % 3} == {1, 2}:
+            return Val("arr", f"(Arr3.transpose021 {a.term})", 3, False, a.roots)
+        if a.nd == 2 and {i % 2, j % 2} == {0, 1}:
+            return Val("arr", f"(Arr.transpose {a.term})", 2, False, a.roots)
+        self.fail(f"swapaxes({i}, {j}) of a {a.nd}-d array", call)
+
     # ------------------------------------------------------------ pure module-level helper functions, inlined
-    def inline(self, name, e):
-        """`name(args)` for a function `name` defined (once, undecorated) at the top level of the same file: its body is
+    def inline(self, name, e, method=None):
+        """`name(args)` for a function `name` defined (once, undecorated) at the top level of the same file (`method` None),
+        or `self.name(args)` for a helper method of the class (`method` = "self" / "static", see `method_helper`): its body is
         translated in place, in a scope of its own holding nothing but its parameters, by the very same statement /
         expression translator — so it is accepted only when it is itself in the straight-line fragment, reads nothing but
-        its parameters (no `self`, no global but the NumPy module and the other top-level functions) and writes nothing but
-        its own fresh arrays.  Parameters are bound with `let`s (Python evaluates the arguments before the call); they are
+        its parameters (no `self` — except in an ordinary method, whose `self` is the caller's —, no global but the NumPy
+        module and the other top-level functions) and writes nothing but its own fresh arrays.  A parameter that receives a
+        folded Boolean is folded in the body too (`if not return_grad: return value`).  Parameters are bound with `let`s (Python evaluates the arguments before the call); they are
         never `owned`, so an in-place update of an argument is refused.  A returned array that is not freshly allocated
         may share memory with ANY array argument."""
-        fn = self.helpers[name]
+        if method is None:
+            fn = self.helpers[name]
+        else:
+            fn, name = self.methods[name], f"self.{name}"
         if len(self.scopes) >= 8 or any(s[0] == name for s in self.scopes):
             self.fail(f"{name}(…): recursive helper function", e)
-        caller = self.helpers[self.scopes[-1][0]] if self.scopes else self.fn
-        if any(isinstance(n, ast.Name) and n.id == name and isinstance(n.ctx, (ast.Store, ast.Del)) for n in ast.walk(caller)) \
-                or name in {x.arg for x in caller.args.args}:
+        caller = self.scopes[-1][3] if self.scopes else self.fn
+        if method is None and (
+                any(isinstance(n, ast.Name) and n.id == name and isinstance(n.ctx, (ast.Store, ast.Del)) for n in ast.walk(caller))
+                or name in {x.arg for x in caller.args.args}):
             self.fail(f"{name}(…): the calling function binds the name {name} itself", e)
         a = fn.args
-        if fn.decorator_list or a.vararg or a.kwarg or a.kwonlyargs or a.posonlyargs or a.defaults:
+        if (method is None and fn.decorator_list) or a.vararg or a.kwarg or a.kwonlyargs or a.posonlyargs or a.defaults:
             self.fail(f"{name}(…): helper functions must be undecorated and take plain positional parameters without defaults", e)
         params = [x.arg for x in a.args]
+        if method == "self":
+            if not params or params[0] != "self":
+                self.fail(f"{name}(…): the first parameter of the method is not called self", e)
+            params = params[1:]               # the receiver: `self` of the caller
         if any(isinstance(x, ast.Starred) for x in e.args) or any(k.arg is None for k in e.keywords) or len(e.args) > len(params):
             self.fail(f"{name}(…): arguments do not match the signature", e)
         given = dict(zip(params, e.args))
@@ -504,7 +559,7 @@ class Unit:
         bad = (stores | set(params)) & (set(self.numpy) | {"len", "self"} | set(self.helpers))
         if bad:
             self.fail(f"{name}(…): the helper function rebinds {', '.join(sorted(bad))}", e)
-        vals = {p: self.expr(x) for p, x in given.items()}          # in the caller's scope, in call order
+        vals = {p: self.arg_value(x) for p, x in given.items()}     # in the caller's scope, in call order
         roots = set()
         for v in vals.values():
             if v.kind in ("arr", "mask", "iarr"):
@@ -513,12 +568,15 @@ class Unit:
         saved = (self.env, self.aliased, self.where)
         self.env, self.aliased = {}, set()
         self.where = f"{saved[2]} -> {name}"
-        self.scopes.append([name, None])
+        self.scopes.append([name, None, method == "self", fn])
         try:
             for p in params:
                 v = vals[p]
                 if v.kind in ("arr", "mask"):
                     v = Val(v.kind, v.term, v.nd, False, v.roots)
+                if v.kind == "bool":
+                    self.env[p] = v                                    # a constant of the translation: folded, no `let`
+                    continue
                 self.bind(p, v, e)
                 if p in self.env and self.env[p].kind in ("arr", "mask", "iarr"):
                     self.aliased.add(p)                                # the caller's array: never updated in place
@@ -533,21 +591,56 @@ class Unit:
         finally:
             self.scopes.pop()
             self.env, self.aliased, self.where = saved
-        if res.kind in ("arr", "mask", "iarr"):
-            mi = bool(res.mi) if res.kind == "arr" else None
-            if res.fresh and not res.roots:
-                return Val(res.kind, res.term, res.nd, True, mi=mi)
-            return Val(res.kind, res.term, res.nd, False, roots, mi=mi)
+        def out(res):
+            if res.kind in ("arr", "mask", "iarr"):
+                mi = bool(res.mi) if res.kind == "arr" else None
+                if res.fresh and not res.roots:
+                    return Val(res.kind, res.term, res.nd, True, mi=mi)
+                return Val(res.kind, res.term, res.nd, False, roots, mi=mi)
+            if res.kind == "bool":
+                self.fail(f"{name}(…): helper function returning a Boolean", e)
+            return res
         if res.kind == "tuple":
-            self.fail(f"{name}(…): helper function returning a tuple", e)
-        return res
+            if not self.tuples_ok:
+                self.fail(f"{name}(…): helper function returning a tuple", e)
+            return Val("tuple", [out(x) for x in res.term])
+        return out(res)
+
+    def arg_value(self, x):
+        """an argument of an inlined helper: a folded Boolean (`return_grad`, `self.ovo`, `not …`, True / False) stays a
+        constant of the translation, anything else is an ordinary value"""
+        b = self.fold_test(x)
+        if b is not None:
+            return Val("bool", "true" if b else "false", lit=b)
+        return self.expr(x)
+
+    def method_helper(self, f):
+        """`self.m` where `m` is certainly the function written in the body of the translated class: `self` is the receiver
+        of `evaluate` (an instance of exactly that class as far as the units go), `m` is bound exactly once in the class body,
+        by a `def` that is undecorated or decorated with the builtin `staticmethod` only (both are non-data descriptors: an
+        instance attribute of the same name would win, hence no attribute of that name may be stored anywhere in the file,
+        nor may the name occur as a string, e.g. for `setattr`), and no other class of the file binds the name (an override
+        in a subclass would change what the subclass runs).  Returns "self" / "static", or None when `f` is no such call."""
+        if not (isinstance(f, ast.Attribute) and isinstance(f.value, ast.Name) and f.value.id == "self"
+                and "self" not in self.env and self.has_self() and f.attr in self.methods):
+            return None
+        fn = self.methods[f.attr]
+        if not fn.decorator_list:
+            return "self"
+        d = fn.decorator_list
+        if len(d) == 1 and isinstance(d[0], ast.Name) and d[0].id == "staticmethod":
+            return "static"
+        self.fail(f"self.{f.attr}(…): decorated helper method (only @staticmethod)", f)
 
     def helper_stmt(self, st):
         """`return` / loops inside an inlined helper function"""
         if isinstance(st, ast.Return):
             if st.value is None:
                 self.fail("return without value", st)
-            self.scopes[-1][1] = self.expr(st.value)
+            if isinstance(st.value, ast.Tuple) and self.tuples_ok:
+                self.scopes[-1][1] = Val("tuple", [self.expr(x) for x in st.value.elts])
+            else:
+                self.scopes[-1][1] = self.expr(st.value)
             raise Returned()
         self.fail(f"{type(st).__name__} inside a helper function", st)
 
@@ -557,6 +650,9 @@ class Unit:
         n = len(e.args)
         if isinstance(f, ast.Name) and f.id in self.helpers and f.id not in self.env and f.id not in getattr(self, "done", {}):
             return self.inline(f.id, e)
+        how = self.method_helper(f) if self.methods else None
+        if how is not None:
+            return self.inline(f.attr, e, how)
         if isinstance(f, ast.Name) and f.id == "len" and "len" not in self.env and n == 1 and nokw:
             a = self.expr(e.args[0])
             if a.kind not in ("arr", "mask") or a.nd == 0:
@@ -604,6 +700,8 @@ class Unit:
                     and [self.literal_int(x) for x in axes.elts] == [0, 2, 1]):
                 self.fail("np.transpose of a 3-d array: only axes=[0, 2, 1]", e)
             return Val("arr", f"(Arr3.transpose021 {a.term})", 3, False, a.roots)
+        if self.is_np(f, {"swapaxes"}) and n == 3 and nokw:
+            return self.swapaxes(self.expr(e.args[0]), e.args[1], e.args[2], e)
         if self.is_np(f, {"maximum"}):
             if n != 2 or not nokw or not self.zero(e.args[1]):
                 self.fail("np.maximum: only np.maximum(array, 0)", e)
@@ -647,14 +745,16 @@ class Unit:
                 return self.reshape(self.expr(f.value), e, e.args)
             if m == "squeeze":
                 return self.squeeze(self.expr(f.value), e, e.args)
+            if m == "swapaxes" and n == 2 and nokw:
+                return self.swapaxes(self.expr(f.value), e.args[0], e.args[1], e)
         self.fail(f"unsupported call {ast.unparse(f)}(…)", e)
 
     # ------------------------------------------------------------ statements
     def bind(self, name, v, node):
-        if name in ("self", "len") or name in self.numpy or name in ARGS[2:]:
+        if name in ("self", "len") or name in self.numpy or (name in ARGS[2:] and not self.scopes):
             self.fail(f"assignment to {name}", node)
-        if v.kind == "tuple":
-            self.fail("assignment of a tuple", node)
+        if v.kind in ("tuple", "bool"):
+            self.fail(f"assignment of a {'tuple' if v.kind == 'tuple' else 'Boolean'} to a name", node)
         lean = self.fresh_name(name)
         self.lets.append((lean, v.term))
         if v.kind in ("arr", "mask"):
@@ -703,6 +803,16 @@ class Unit:
             t = st.targets[0]
             if isinstance(t, ast.Name):
                 self.bind(t.id, self.expr(st.value), st)
+                return
+            if isinstance(t, ast.Tuple) and isinstance(st.value, ast.Call) and self.methods \
+                    and self.method_helper(st.value.func) is not None:
+                # `a, b = self.m(…)`: the tuple an inlined helper method returned, unpacked into distinct names
+                v = self.expr(st.value)
+                names = [x.id if isinstance(x, ast.Name) else None for x in t.elts]
+                if v.kind != "tuple" or None in names or len(set(names)) != len(names) or len(names) != len(v.term):
+                    self.fail("unsupported unpacking (only `a, b = self.m(…)` of a helper method returning as many values)", st)
+                for nm, x in zip(names, v.term):
+                    self.bind(nm, x, st)
                 return
             if isinstance(t, ast.Subscript) and isinstance(t.value, ast.Name):
                 cur = self.owned(t.value.id, st, "masked assignment", int_ok=True)
@@ -761,7 +871,8 @@ class Unit:
             if isinstance(st.value, ast.Tuple):
                 vals = [self.expr(x) for x in st.value.elts]
             else:
-                vals = [self.expr(st.value)]
+                v = self.expr(st.value)
+                vals = list(v.term) if v.kind == "tuple" else [v]      # (a tuple: what an inlined helper method returned)
             want = [0, 2] if self.grad else [0]
             if len(vals) != len(want):
                 self.fail(f"return of {len(vals)} value(s) with return_grad={self.grad}", st)
@@ -867,6 +978,76 @@ def module_helpers(tree):
         if isinstance(node, ast.FunctionDef) and counts.get(node.name) == 1 and node.name not in declared:
             defs[node.name] = node
     return defs
+
+
+def _bound_in_class(node):
+    """how often each name is bound in the body of a class (its own scope)"""
+    counts = {}
+    for x in _walk_scope(node.body):
+        names = []
+        if isinstance(x, (ast.FunctionDef, ast.AsyncFunctionDef, ast.ClassDef)):
+            names = [x.name]
+        elif isinstance(x, ast.Name) and isinstance(x.ctx, (ast.Store, ast.Del)):
+            names = [x.id]
+        elif isinstance(x, (ast.Import, ast.ImportFrom)):
+            names = [(a.asname or a.name).split(".")[0] for a in x.names]
+        elif isinstance(x, ast.ExceptHandler) and x.name:
+            names = [x.name]
+        elif isinstance(x, (ast.MatchAs, ast.MatchStar)) and x.name:
+            names = [x.name]
+        elif isinstance(x, ast.MatchMapping) and x.rest:
+            names = [x.rest]
+        for n in names:
+            counts[n] = counts.get(n, 0) + 1
+    return counts
+
+
+def class_helpers(tree, cls):
+    """name -> FunctionDef of the methods of the top-level class `cls` that `self.name`, on an instance of exactly that
+    class, certainly means: written as a plain `def` directly in the class body, the name bound exactly once there and in no
+    other class of the file (at any depth), never stored or deleted as an attribute of anything in the file (`x.name = …`
+    would shadow the function on an instance), never written as a string constant (`setattr(self, "name", …)`), the class
+    body free of `global` / `nonlocal`, and — when decorated — `staticmethod` not rebound at module or class level.  None at
+    all when the file has a `from … import *`, a metaclass keyword or several classes called `cls`."""
+    nodes = [n for n in tree.body if isinstance(n, ast.ClassDef) and n.name == cls]
+    everywhere = [n for n in ast.walk(tree) if isinstance(n, ast.ClassDef)]
+    if len(nodes) != 1 or sum(1 for n in everywhere if n.name == cls) != 1 or nodes[0].keywords or nodes[0].decorator_list:
+        return {}
+    if any(isinstance(n, ast.ImportFrom) and any(a.name == "*" for a in n.names) for n in ast.walk(tree)):
+        return {}
+    node = nodes[0]
+    if any(isinstance(x, (ast.Global, ast.Nonlocal)) for x in _walk_scope(node.body)):
+        return {}
+    own = _bound_in_class(node)
+    others = set()
+    for n in everywhere:
+        if n is not node:
+            others |= set(_bound_in_class(n))
+    stored = {n.attr for n in ast.walk(tree) if isinstance(n, ast.Attribute) and isinstance(n.ctx, (ast.Store, ast.Del))}
+    strings = {n.value for n in ast.walk(tree) if isinstance(n, ast.Constant) and isinstance(n.value, str)}
+    module_level = set()
+    for x in _walk_scope(tree.body):
+        if isinstance(x, ast.Name) and isinstance(x.ctx, (ast.Store, ast.Del)):
+            module_level.add(x.id)
+        elif isinstance(x, (ast.FunctionDef, ast.AsyncFunctionDef, ast.ClassDef)):
+            module_level.add(x.name)
+        elif isinstance(x, (ast.Import, ast.ImportFrom)):
+            module_level |= {(a.asname or a.name).split(".")[0] for a in x.names}
+    module_level |= {x for n in ast.walk(tree) if isinstance(n, ast.Global) for x in n.names}
+    static_ok = "staticmethod" not in module_level and "staticmethod" not in own
+    out = {}
+    for item in node.body:
+        if isinstance(item, ast.FunctionDef) and own.get(item.name) == 1 and item.name not in others \
+                and item.name not in stored and item.name not in strings and item.name != "evaluate" \
+                and not (item.name.startswith("__") and item.name.endswith("__")):
+            if item.decorator_list and not static_ok:
+                continue
+            out[item.name] = item
+    return out
+
+
+def _full_slice(s):
+    return isinstance(s, ast.Slice) and s.lower is None and s.upper is None and s.step is None
 
 
 def _numpy_names(rel, tree):
